@@ -19,6 +19,7 @@ import SharkVerif.Lemmas.Regroup
 import SharkVerif.Lemmas.View
 import SharkVerif.Lemmas.Subset
 import SharkVerif.Lemmas.Blocks
+import SharkVerif.Lemmas.Dealing
 namespace SharkVerif.C12
 open SharkVerif.CheckedNat SharkVerif.Gen.BatchArith SharkVerif.BatchArith SharkVerif.Dataset SharkVerif.CV
 
@@ -205,6 +206,29 @@ theorem samesize_balanced (n k : Nat) (hk : 0 < k) :
     obtain ⟨i, _, rfl⟩ := hs
     obtain ⟨j, _, rfl⟩ := ht
     split <;> split <;> omega
+
+/-- **dealing_class_balance** (`createCVSameSizeBalanced`: `fold = (fold+1) % k` with the counter running on
+across classes): the members of one class occupy a block of `m` consecutive dealing positions starting at some
+position `a`; for any two folds the numbers of class members they receive differ by at most one -/
+theorem dealing_class_balance (k a m f g : Nat) (hk : 0 < k) (hf : f < k) (hg : g < k) :
+    ((List.range m).filter fun j => (a + j) % k = f).length ≤
+    ((List.range m).filter fun j => (a + j) % k = g).length + 1 :=
+  Dealing.window_balance k a m f g hk hf hg
+
+/-- **dealing_fills_folds_exactly**: dealing n elements round-robin gives fold f exactly ⌊n/k⌋ (+1 if f < n mod k)
+elements — the validation sizes from which the batch layout was computed beforehand (`sameSizes`), so every
+batch of the new set is filled exactly -/
+theorem dealing_fills_folds_exactly (n k f : Nat) (hk : 0 < k) (hf : f < k) :
+    ((List.range n).filter fun j => j % k = f).length = n / k + (if f < n % k then 1 else 0) ∧
+    sameSizes n k = some ((List.range k).map fun i => n / k + (if i < n % k then 1 else 0)) := by
+  refine ⟨?_, ?_⟩
+  · have := Dealing.count_window k f 0 hk hf n
+    simp only [Nat.zero_add, Dealing.cnt, Nat.zero_div, Nat.zero_mod, Nat.not_lt_zero, if_false, Nat.add_zero] at this
+    exact this
+  · have hmul : n / k * k ≤ n := Nat.div_mul_le_self n k
+    have hmod : n - n / k * k = n % k := by
+      have := Nat.div_add_mod n k; rw [Nat.mul_comm] at this; omega
+    simp [sameSizes, cdiv, csub, Nat.ne_of_gt hk, hmul, hmod]
 
 /-! ## D. the reorganised dataset -/
 
